@@ -38,7 +38,11 @@ are re-run (`lib/eval_all_seeded.sh`) to make sure nothing that was caught is lo
 
 Two of the round-a misses paid twice: the zero-length reads added for C09-a exposed a defect in
 my own repair of F3 (follow-up fix `aca35d0`), and the hostile TE weights added for C14-a exposed
-the genuine defect F10 (`2881f0e`: a NaN weight scrambles the TE preference order).
+the genuine defect F10 (`2881f0e`: a NaN weight scrambles the TE preference order). In round d the
+keep-open trials added for C06-d exposed the genuine defect F11 (`47db075`: a raw response writer
+dropped without an explicit flush left its response in the connection's buffer). Two kept changes
+no longer alter behaviour on the repaired tree (C14-a since F10, C06-d since F11); their rows say so
+and show the result obtained on the tree of their time.
 """
 s = s.rstrip('\n') + "\n\n" + text
 open(p, 'w').write(s)
